@@ -24,9 +24,13 @@ theorem setHeader_closed (c : Cfg) (w : Wrap.State) (md : MD) : (Wrap.setHeader 
     · split <;> rfl
   · rfl
 
-theorem sendHeader_closed (w : Wrap.State) (md : MD) : (Wrap.sendHeader w md).1.closed = w.closed := by
-  unfold Wrap.sendHeader
-  split <;> rfl
+theorem sendHeader_closed (c : Cfg) (w : Wrap.State) (md : MD) : (Wrap.sendHeaderC c w md).1.closed = w.closed := by
+  unfold Wrap.sendHeaderC Wrap.sendHeader Wrap.sendHeaderOld
+  split
+  · split
+    · rfl
+    · split <;> rfl
+  · split <;> rfl
 
 theorem close_closed (c : Cfg) (w : Wrap.State) (e : Fin) : (Wrap.close c w e).closed = some e := by
   simp [Wrap.close]
@@ -62,8 +66,8 @@ theorem unwind_inv (c : Cfg) (fin opErr : Fin) (cc : Bool) (ops : List SOp) :
     | send m =>
       simp only [unwind, List.mem_cons, List.mem_nil_iff, or_false] at hf
       rcases hf with rfl | rfl
-      · show (Wrap.sendHeaderIfNeeded w).closed = none
-        unfold Wrap.sendHeaderIfNeeded; rw [sendHeader_closed]; exact hw
+      · show (Wrap.sendHeaderIfNeededC c w).closed = none
+        unfold Wrap.sendHeaderIfNeededC; rw [sendHeader_closed]; exact hw
       · exact Or.inr (close_closed c _ opErr)
     | recv =>
       simp only [unwind, List.mem_cons] at hf
@@ -78,6 +82,59 @@ theorem unwind_inv (c : Cfg) (fin opErr : Fin) (cc : Bool) (ops : List SOp) :
       rcases hf with rfl | rfl
       · exact hw
       · exact Or.inr (close_closed c _ opErr)
+
+theorem advance_inv (c : Cfg) (fin opErr : Fin) (cc : Bool) (ops : List SOp) :
+    ∀ w : Wrap.State, w.closed = none →
+      ∀ f ∈ advance (Wrap.impl c) fin cc w ops, AInv fin opErr f.1 f.2 := by
+  induction ops with
+  | nil =>
+    intro w hw f hf
+    simp only [advance, List.mem_cons, List.mem_nil_iff, or_false] at hf
+    rcases hf with rfl | rfl
+    · exact hw
+    · exact Or.inl (close_closed c w fin)
+  | cons op ss ih =>
+    intro w hw f hf
+    cases op with
+    | setHeader md =>
+      simp only [advance, List.mem_cons] at hf
+      rcases hf with rfl | hf
+      · exact hw
+      · exact ih _ (by simp only [Wrap.impl]; rw [setHeader_closed]; exact hw) f hf
+    | sendHeader md =>
+      simp only [advance, List.mem_cons] at hf
+      rcases hf with rfl | hf
+      · exact hw
+      · exact ih _ (by simp only [Wrap.impl]; rw [sendHeader_closed]; exact hw) f hf
+    | setTrailer md =>
+      simp only [advance, List.mem_cons] at hf
+      rcases hf with rfl | hf
+      · exact hw
+      · exact ih _ (by simpa [Wrap.impl, Wrap.setTrailer] using hw) f hf
+    | send m =>
+      simp only [advance, List.mem_cons, List.mem_nil_iff, or_false] at hf
+      rcases hf with rfl | rfl
+      · exact hw
+      · show (Wrap.sendHeaderIfNeededC c w).closed = none
+        unfold Wrap.sendHeaderIfNeededC; rw [sendHeader_closed]; exact hw
+    | recv =>
+      simp only [advance, List.mem_cons] at hf
+      rcases hf with rfl | hf
+      · exact hw
+      · cases cc
+        · simp at hf
+        · exact ih _ hw f (by simpa using hf)
+    | wait =>
+      simp only [advance, List.mem_cons, List.mem_nil_iff, or_false] at hf
+      subst hf
+      exact hw
+
+theorem advanced_inv (c : Cfg) (fin opErr : Fin) (cc : Bool) (w : Wrap.State) (srv : Srv)
+    (h : AInv fin opErr w srv) : ∀ f ∈ advanced (Wrap.impl c) fin cc w srv, AInv fin opErr f.1 f.2 := by
+  cases srv with
+  | running ops => exact advance_inv c fin opErr cc ops w h
+  | done => intro f hf; simp only [advanced, List.mem_cons, List.mem_nil_iff, or_false] at hf; subst hf; exact h
+  | aborted => intro f hf; simp only [advanced, List.mem_cons, List.mem_nil_iff, or_false] at hf; subst hf; exact h
 
 theorem futures_inv (c : Cfg) (fin opErr : Fin) (cc : Bool) (w : Wrap.State) (srv : Srv)
     (h : AInv fin opErr w srv) : ∀ f ∈ futures (Wrap.impl c) fin opErr cc w srv, AInv fin opErr f.1 f.2 := by
@@ -176,12 +233,12 @@ theorem stateAt_inv (c : Cfg) (fin opErr : Fin) (reuse : Bool) (w : Wrap.State) 
     | (simp only [Option.some.injEq] at hr; subst hr; exact h)
     | (rename_i ih; exact ih h r hr)
     | (rename_i ih; refine ih ?_ r hr; show (Wrap.setHeader c _ _).1.closed = none; rw [setHeader_closed]; exact h)
-    | (rename_i ih; refine ih ?_ r hr; show (Wrap.sendHeader _ _).1.closed = none; rw [sendHeader_closed]; exact h)
+    | (rename_i ih; refine ih ?_ r hr; show (Wrap.sendHeaderC c _ _).1.closed = none; rw [sendHeader_closed]; exact h)
     | (rename_i ih; refine ih ?_ r hr; show (Wrap.setTrailer _ _).closed = none; exact h)
     | (rename_i ih; refine ih ?_ r hr; exact Or.inl (close_closed c _ fin))
-    | (rename_i ih; refine ih ?_ r hr; show (Wrap.sendHeaderIfNeeded _).closed = none; unfold Wrap.sendHeaderIfNeeded; rw [sendHeader_closed]; exact h)
+    | (rename_i ih; refine ih ?_ r hr; show (Wrap.sendHeaderIfNeededC c _).closed = none; unfold Wrap.sendHeaderIfNeededC; rw [sendHeader_closed]; exact h)
     | (rename_i ih; refine ih ?_ r hr; show ((Wrap.impl c).xfer _ _ _ _).1.closed = none; rw [xfer_closed']; exact h)
-    | (rename_i ih; refine ih ?_ r hr; show ((Wrap.impl c).xfer _ _ _ _).1.closed = none; rw [xfer_closed']; show (Wrap.sendHeaderIfNeeded _).closed = none; unfold Wrap.sendHeaderIfNeeded; rw [sendHeader_closed]; exact h)
+    | (rename_i ih; refine ih ?_ r hr; show ((Wrap.impl c).xfer _ _ _ _).1.closed = none; rw [xfer_closed']; show (Wrap.sendHeaderIfNeededC c _).closed = none; unfold Wrap.sendHeaderIfNeededC; rw [sendHeader_closed]; exact h)
 
 /-- **After the abort the handler always returns**: every way it can unwind ends with the handler
 returned (each of its blocking calls also waits on the call's context). -/
@@ -204,5 +261,110 @@ theorem unwind_last_done {σ : Type} (I : Impl σ) (fin opErr : Fin) (cc : Bool)
         have hne : unwind I fin opErr true s ss ≠ [] := by intro h; have := ih s; simp [h] at this
         rw [List.getLast?_cons_of_ne_nil (by simp), List.getLast?_cons_of_ne_nil hne]
         exact ih s
+
+/-! ### Once the caller's context has ended, nothing the handler does changes what `Header()` reads -/
+
+/-- `w'` differs from `w` at most in metadata that is not (and never will be) visible through `Header()`:
+same context state, same latch, and the same header content if the latch is closed. -/
+def Frozen (w w' : Wrap.State) : Prop :=
+  w'.ctxErr = w.ctxErr ∧ w'.headerC = w.headerC ∧ (w.headerC = true → w'.header = w.header)
+
+theorem Frozen.refl (w : Wrap.State) : Frozen w w := ⟨rfl, rfl, fun _ => rfl⟩
+
+theorem Frozen.trans {a b c : Wrap.State} (h1 : Frozen a b) (h2 : Frozen b c) : Frozen a c :=
+  ⟨h2.1.trans h1.1, h2.2.1.trans h1.2.1, fun h => (h2.2.2 (h1.2.1.trans h)).trans (h1.2.2 h)⟩
+
+theorem Frozen.header {w w' : Wrap.State} (h : Frozen w w') (he : w.ctxErr.isSome = true) :
+    Wrap.header w' = Wrap.header w := by
+  obtain ⟨h1, h2, h3⟩ := h
+  unfold Wrap.header
+  rw [h1, h2]
+  by_cases hc : w.headerC
+  · simp [hc, h3 hc]
+  · simp [hc, he]
+
+theorem frozen_setHeader (w : Wrap.State) (md : MD) : Frozen w (Wrap.setHeader Cfg.current w md).1 := by
+  unfold Wrap.setHeader
+  simp only [Cfg.current, if_true]
+  by_cases hm : md.isEmpty
+  · simp only [hm, if_true]; exact Frozen.refl w
+  · by_cases hc : w.headerC
+    · simp only [hm, hc, if_true]; exact Frozen.refl w
+    · have hc' : w.headerC = false := by simpa using hc
+      simp only [hm, hc', Bool.false_eq_true, if_false]
+      exact ⟨rfl, hc'.symm, fun h => absurd h hc⟩
+
+theorem frozen_sendHeader (w : Wrap.State) (md : MD) (he : w.ctxErr.isSome = true) :
+    Frozen w (Wrap.sendHeader w md).1 := by
+  unfold Wrap.sendHeader
+  simp only [he, if_true]
+  exact Frozen.refl w
+
+theorem frozen_close (w : Wrap.State) (e : Fin) (he : w.ctxErr.isSome = true) :
+    Frozen w (Wrap.close Cfg.current w e) := by
+  have hcl : Wrap.close Cfg.current w e = { Wrap.sendHeaderIfNeeded w with closed := some e } := rfl
+  rw [hcl]
+  obtain ⟨h1, h2, h3⟩ := frozen_sendHeader w [] he
+  exact ⟨h1, h2, h3⟩
+
+/-- The closed flag does not take part in `Header()` once the context has ended. -/
+theorem header_close_irrelevant (w : Wrap.State) (e : Fin) (he : w.ctxErr.isSome = true) :
+    Wrap.header { w with closed := some e } = Wrap.header w := by
+  unfold Wrap.header
+  by_cases hc : w.headerC <;> simp [hc, he]
+
+/-- Every state the handler passes through while it unwinds after the abort is `Frozen` w.r.t. the state
+at the abort. -/
+theorem unwind_frozen (fin opErr : Fin) (cc : Bool) (ops : List SOp) :
+    ∀ w : Wrap.State, w.ctxErr.isSome = true →
+      ∀ f ∈ unwind (Wrap.impl Cfg.current) fin opErr cc w ops, Frozen w f.1 := by
+  induction ops with
+  | nil =>
+    intro w he f hf
+    simp only [unwind, List.mem_cons, List.mem_nil_iff, or_false] at hf
+    rcases hf with rfl | rfl
+    · exact Frozen.refl w
+    · exact frozen_close w fin he
+  | cons op ss ih =>
+    intro w he f hf
+    cases op with
+    | setHeader md =>
+      simp only [unwind, List.mem_cons] at hf
+      rcases hf with rfl | hf
+      · exact Frozen.refl w
+      · have hfz := frozen_setHeader w md
+        exact hfz.trans (ih _ (by rw [hfz.1]; exact he) f hf)
+    | sendHeader md =>
+      simp only [unwind, List.mem_cons] at hf
+      rcases hf with rfl | hf
+      · exact Frozen.refl w
+      · have hfz := frozen_sendHeader w md he
+        exact hfz.trans (ih _ (by rw [hfz.1]; exact he) f hf)
+    | setTrailer md =>
+      simp only [unwind, List.mem_cons] at hf
+      rcases hf with rfl | hf
+      · exact Frozen.refl w
+      · have hfz : Frozen w (Wrap.setTrailer w md) := ⟨rfl, rfl, fun _ => rfl⟩
+        exact hfz.trans (ih (Wrap.setTrailer w md) he f hf)
+    | send m =>
+      simp only [unwind, List.mem_cons, List.mem_nil_iff, or_false] at hf
+      have hfz : Frozen w (Wrap.sendHeaderIfNeeded w) := frozen_sendHeader w [] he
+      rcases hf with rfl | rfl
+      · exact hfz
+      · exact hfz.trans (frozen_close _ opErr (by rw [hfz.1]; exact he))
+    | recv =>
+      simp only [unwind, List.mem_cons] at hf
+      rcases hf with rfl | rfl | hf
+      · exact Frozen.refl w
+      · exact frozen_close w opErr he
+      · cases cc
+        · simp at hf
+        · simp only [if_true] at hf
+          exact ih w he f hf
+    | wait =>
+      simp only [unwind, List.mem_cons, List.mem_nil_iff, or_false] at hf
+      rcases hf with rfl | rfl
+      · exact Frozen.refl w
+      · exact frozen_close w opErr he
 
 end ScVerif.C13
